@@ -3,6 +3,7 @@ package c01
 import (
 	"encoding/hex"
 	"fmt"
+	ethtypes "github.com/ethereum/go-ethereum/core/types"
 	"math/big"
 	"time"
 
@@ -50,6 +51,7 @@ type gen struct {
 	queries        []QuerySpec
 	claimAll       []*vh.TxPlan   // claims of the dedicated staker from all validators at once
 	deployer       *vh.Acct       // whitelisted precompile deployer; holds the second denomination
+	twin           *vh.Acct       // signs two different transactions with the same nonce every few blocks, nothing else
 	dynErc20       common.Address // ERC-20 precompile deployed MID-history (zero until then)
 	proven         []*vh.Acct     // keys whose ownership gets proven to x/vauth at height 3 (they never transact)
 }
@@ -73,6 +75,8 @@ func newGen(r *vh.RNG, seed uint64) *gen {
 			g.vestInfo[a] = fmt.Sprintf("%s/end=%d", k, end)
 		}
 	}
+	g.twin = vh.NewAcct(r)
+	accts = append(accts, vh.GenAccount{Addr: g.twin.Addr, Coins: vh.NativeCoins(1000)})
 	g.deployer = vh.NewAcct(r)
 	accts = append(accts, vh.GenAccount{Addr: g.deployer.Addr, Coins: vh.NativeCoins(1000).Add(sdk.NewCoin(vh.SecondDenom, sdkmath.NewInt(5_000_000_000)))})
 	g.w = vh.NewWorld(r, vh.WorldOpts{Chain: vh.Config{Seed: seed, KeepBlocks: true, NumVals: 4, MaxGas: 40_000_000, Erc20Native: true, StakingCPC: true,
@@ -105,6 +109,24 @@ func (g *gen) block(height int) ([]*vh.TxPlan, *vh.BlockOpt) {
 	// a dedicated staker delegates a large amount to EVERY validator early on and later claims from all of them in one
 	// call (withdrawRewards / transfer / withdrawRewardsByMessage-free paths): the order in which the precompile walks
 	// several validators is consensus-visible (logs, events) and must not depend on map iteration order
+	// the same key signs two different transactions with one nonce (a wallet that re-sends with other contents); both are in
+	// the block, the first executes, the second is refused by every node - whatever a node's mempool has seen of the two
+	// before (followers with mempool traffic are offered both, in either order, while earlier blocks execute)
+	if height%4 == 3 {
+		n := w.C.Nonce(g.twin.Addr)
+		price := new(big.Int).Mul(w.C.BaseFee(), big.NewInt(3))
+		for k := 0; k < 2; k++ {
+			to := vh.Pick(r, w.Pool)
+			tx := vh.SignEth(g.twin, &ethtypes.LegacyTx{Nonce: n, To: &to, Value: big.NewInt(int64(1 + k + r.Intn(1000))), Gas: 21000 + uint64(k)*9000, GasPrice: price})
+			if bz, err := w.C.WrapEthErr(tx, g.twin.Addr); err == nil {
+				class := "ok"
+				if k == 1 {
+					class = "stale-nonce"
+				}
+				add("twin-nonce", &vh.TxPlan{Kind: "eth-call", Class: class, Sender: g.twin, Tx: tx, Bytes: bz, To: &to})
+			}
+		}
+	}
 	staker := w.EOAs[len(w.EOAs)-1]
 	if height == 1 {
 		for _, v := range w.C.Vals {
